@@ -200,6 +200,23 @@ def PipeErr.request {ε : Type} : PipeErr ε → Json
 /-- `json![{"error": "unable to display query"}]`, the request shown when the state was consumed -/
 def noRequest : Json := .obj [("error", .str "unable to display query")]
 
+/-- the message of an error response; messages are not modelled (never compared), `"E"` stands for it -/
+def errorText : Json := .str "E"
+
+/-- `package_error(query, error)`: `json!({"request": query, "error": error.to_string()})` -/
+def packageError (query : Json) : Json := .obj [("request", query), ("error", errorText)]
+
+/-- `package_invariant_error(query, sub_section)`: the message shows the query state and the offending
+sub-section when they are given (text only); the response carries the query, or the placeholder when
+the caller had none to show -/
+def packageInvariantError (query _subSection : Option Json) : Json :=
+  match query with
+  | some q => packageError q
+  | none => packageError noRequest
+
+/-- the error response (`Err(Value)`) an error of the pipeline stands for -/
+def PipeErr.response {ε : Type} (e : PipeErr ε) : Json := packageError e.request
+
 /-- de-nest one level: `for v1 in top { Array(sub) => push each, other => push other }` -/
 def flatten1 : List Json → List Json
   | [] => []
@@ -255,6 +272,61 @@ def applyInputPlugins {ε : Type} (plugins : List (Json → Except ε Json)) (qu
     | .ok s => jsonArrayFlatten s
     | .error e => .error e
   else .error (.notObject query)
+
+/-! ### plugins from configuration -/
+
+/-- the `CompassConfigurationError`s of `build_input_plugins` -/
+inductive CfgErr where
+  /-- `ExpectedFieldForComponent`: no `input_plugins` field / no `type` field in an entry -/
+  | expectedField
+  /-- `ExpectedFieldWithType`: `input_plugins` is not an array / `type` is not a string -/
+  | expectedType
+  /-- `UnknownModelNameForComponent`: no builder registered under the `type` -/
+  | unknownPlugin
+  deriving DecidableEq, Repr
+
+def CfgErr.variant : CfgErr → String
+  | .expectedField => "ExpectedFieldForComponent"
+  | .expectedType => "ExpectedFieldWithType"
+  | .unknownPlugin => "UnknownModelNameForComponent"
+
+/-- the loop of `CompassAppBuilder::build_input_plugins` over the entries of `input_plugins`;
+`builders` is the registry (`type` name ↦ `InputPluginBuilder::build`), the first failure wins -/
+def buildEntries {π : Type} (builders : String → Option (Json → Except CfgErr π)) :
+    List Json → Except CfgErr (List π)
+  | [] => .ok []
+  | entry :: rest =>
+    match entry.get? "type" with
+    | none => .error .expectedField
+    | some (.str t) =>
+      match builders t with
+      | none => .error .unknownPlugin
+      | some build =>
+        match build entry with
+        | .error e => .error e
+        | .ok plugin =>
+          match buildEntries builders rest with
+          | .ok ps => .ok (plugin :: ps)
+          | .error e => .error e
+    | some _ => .error .expectedType
+
+/-- `CompassAppBuilder::build_input_plugins(config)` (`config` is the `plugin` section) -/
+def buildInputPlugins {π : Type} (builders : String → Option (Json → Except CfgErr π))
+    (config : Json) : Except CfgErr (List π) :=
+  match config.get? "input_plugins" with
+  | none => .error .expectedField
+  | some (.arr entries) => buildEntries builders entries
+  | some _ => .error .expectedType
+
+/-- `GridSearchBuilder::build`: ignores its parameters, cannot fail -/
+def gridSearchBuilder {ε : Type} (_parameters : Json) : Except ε (Json → Except ErrKind Json) :=
+  .ok process
+
+/-- the part of the default registry this model covers: `grid_search` (the other registered builders —
+`vertex_rtree`, `edge_rtree`, `load_balancer`, `inject`, `debug` — belong to other properties and are
+not generated by the C17 case stream) -/
+def gridOnlyRegistry (t : String) : Option (Json → Except CfgErr (Json → Except ErrKind Json)) :=
+  if t = gridKey then some gridSearchBuilder else none
 
 end GridSearch
 end Compass
